@@ -119,6 +119,9 @@ func render(format string, items []Item, l Layout) []byte {
 	var b bytes.Buffer
 	sep := func() {
 		if l.Blank {
+			if l.Surround {
+				b.WriteString(" \t") // a line of white space only is a blank line too
+			}
 			b.WriteString("\n")
 		}
 	}
@@ -137,9 +140,7 @@ func render(format string, items []Item, l Layout) []byte {
 			lines = append(lines, surround(s, l.Surround))
 		}
 		for i, ln := range lines {
-			if l.Blank {
-				b.WriteString("\n")
-			}
+			sep()
 			b.WriteString(ln)
 			if i < len(lines)-1 || l.FinalNL {
 				b.WriteString("\n")
@@ -391,7 +392,7 @@ func itemAlphabet(format string, reduced bool) []Item {
 	return out
 }
 
-var uriExotic = []string{"/a%2fb/(x)!*'", "/q?", "/%7euser/a+b?x=%3d&y=a+b"}
+var uriExotic = []string{"/a%2fb/(x)!*'", "/q?", "/%7euser/a+b?x=%3d&y=a+b", "/long?q=" + strings.Repeat("0123456789", 520)} // the last: a line beyond 4 KiB
 
 func layouts(format string) []Layout {
 	var out []Layout
